@@ -29,7 +29,7 @@ def setup(rep):
                "offline (the code is the only transcription)")
     rep.clause("event-tree", "B", "iteration yields every particle once in order; parent/children/level queries mutually consistent; "
                "unknown particles rejected without disturbing the tree - every tree shape with <= 2 roots and 3 added particles")
-    rep.bounded.append("event trees: 1-2 roots, two add_children calls (2 + 1 particles), every choice of parents")
+    rep.bounded.append("event trees: 1-2 roots, two add_children calls (2 + 1 particles) and, for one root, a third interleaved call; every choice of parents")
     rep.assume("A1, A2 (exp/log/rpow axioms), A7 (RNG), A12 (interval enclosures of log/rpow of constants), A13 (deriv)")
     rep.assume("secondary-interaction tables (module-level data files) are cumulative distributions: np.interp on them returns values in [0,1]")
     rep.assume("CTW parameterisation is used on its published validity range log10(E/GeV) in [3, 12]")
